@@ -9,6 +9,7 @@ package main
 import (
 	"bytes"
 	"encoding/hex"
+	"errors"
 	"fmt"
 	"sort"
 	"strings"
@@ -360,8 +361,32 @@ func genHistory(r *hx.Rng) ([]op, string) {
 	return h, style
 }
 
+// ---------------------------------------------------------------- disk store with transient write failures
+// failDB is the in-memory store with batches whose Write can be made to fail once, at a chosen call.
+type failDB struct {
+	*db.MemDatabase
+	writes int // batch Write calls since the counter was reset
+	failAt int // the failAt-th Write call fails (nothing of that batch is written); 0 = never
+}
+
+func (f *failDB) NewBatch() db.Batch { return &failBatch{Batch: f.MemDatabase.NewBatch(), f: f} }
+
+type failBatch struct {
+	db.Batch
+	f *failDB
+}
+
+func (b *failBatch) Write() error {
+	b.f.writes++
+	if b.f.writes == b.f.failAt {
+		return errors.New("injected transient batch write failure")
+	}
+	return b.Batch.Write()
+}
+
 // ---------------------------------------------------------------- system under test
 type sut struct {
+	store  *failDB
 	mem    *db.MemDatabase
 	tdb    *trie.NodeDatabase
 	t      *trie.Trie
@@ -373,12 +398,13 @@ type sut struct {
 
 func newSut() *sut {
 	mem, _ := db.NewMemDatabase()
-	tdb := trie.NewDatabase(mem)
+	store := &failDB{MemDatabase: mem}
+	tdb := trie.NewDatabase(store)
 	t, err := trie.NewTrie(common.Hash{}, tdb)
 	if err != nil {
 		panic(err)
 	}
-	return &sut{mem: mem, tdb: tdb, t: t, shadow: map[string][]byte{}}
+	return &sut{store: store, mem: mem, tdb: tdb, t: t, shadow: map[string][]byte{}}
 }
 
 func freshRoot(keys []string, content map[string][]byte) common.Hash {
@@ -716,7 +742,7 @@ func (rn *runner) runB(h []op, universe [][]byte) (hops []string, jsn []string, 
 				if err := s.tdb.Commit(root, false); err != nil {
 					rn.violate("C02/reopen:db-commit", err.Error(), h, i)
 				}
-				s.tdb = trie.NewDatabase(s.mem) // nothing survives but the disk content
+				s.tdb = trie.NewDatabase(s.store) // nothing survives but the disk content
 				s.roots = nil
 				// layer B observation: the whole disk store (hash -> node RLP), once per history and only when small
 				if !diskDumped {
@@ -853,6 +879,133 @@ func modelCost(hops []string) (src int, roots int) {
 	return
 }
 
+// ---------------------------------------------------------------- flushes of several batches with a failing write
+// bigFlush: phase 1 writes n1 keys and flushes them; phase 2 overwrites some, deletes some and adds n2 keys
+// with values of 2-4 KiB (several hundred KiB, so the flush takes several 100 KiB batches), commits the trie
+// and flushes through NodeDatabase.Commit or Cap while the failAt-th batch Write fails (0 = none).
+// Contract: EITHER the flush reports an error - then everything still reads correctly from memory and a
+// retry persists everything - OR after reopening from disk every live key reads its last value and the
+// root is the committed one. Returns the number of batch writes the failing-free flush takes.
+func bigFlush(res *hx.Result, seed uint64, via string, failAt int, report bool) (writes int) {
+	r := hx.NewRng(seed)
+	s := newSut()
+	desc := map[string]interface{}{"experiment": "bigflush", "seed": seed, "via": via, "fail_write_call": failAt}
+	viol := func(key, what string) {
+		if report {
+			res.Violate(key, what, desc)
+		}
+	}
+	defer func() {
+		if p := recover(); p != nil {
+			viol("C02/panic:flush-with-write-failure", fmt.Sprint(p))
+		}
+	}()
+	put := func(k, v []byte) {
+		if err := s.t.TryUpdate(k, v); err != nil {
+			viol("C02/missing-node:upd", err.Error())
+		}
+		if len(v) == 0 {
+			delete(s.shadow, string(k))
+		} else {
+			s.shadow[string(k)] = v
+		}
+	}
+	var keys [][]byte
+	pre := r.Bytes(20)
+	newKey := func() []byte {
+		var k []byte
+		if r.Intn(3) == 0 {
+			k = append(append([]byte{}, pre...), r.Bytes(2)...)
+		} else {
+			k = r.Bytes(32)
+		}
+		keys = append(keys, k)
+		return k
+	}
+	for i := 0; i < 30; i++ {
+		put(newKey(), r.Bytes(2048+r.Intn(2048)))
+	}
+	root, err := s.t.Commit(nil)
+	if err == nil {
+		err = s.tdb.Commit(root, false)
+	}
+	if err != nil {
+		viol("C02/missing-node:flush", err.Error())
+	}
+	for i := 0; i < 10; i++ {
+		put(keys[r.Intn(len(keys))], r.Bytes(2048+r.Intn(2048)))
+	}
+	for i := 0; i < 5; i++ {
+		put(keys[r.Intn(len(keys))], nil)
+	}
+	for i := 0; i < 110; i++ {
+		put(newKey(), r.Bytes(2048+r.Intn(2048)))
+	}
+	root, err = s.t.Commit(nil)
+	if err != nil {
+		viol("C02/missing-node:commit", err.Error())
+	}
+	readAll := func(where, missKey string) {
+		for _, k := range keys {
+			v, err := s.t.TryGet(k)
+			if err != nil {
+				viol(missKey, fmt.Sprintf("%s: TryGet(%x): %v", where, k, err))
+				return
+			}
+			if want := s.shadow[string(k)]; !bytes.Equal(v, want) {
+				viol("C02/read-last-write:after-failed-flush", fmt.Sprintf("%s: TryGet(%x) returns %d bytes %x.., last value written has %d bytes", where, k, len(v), v[:minInt(8, len(v))], len(want)))
+				return
+			}
+		}
+	}
+	flush := func() error {
+		if via == "cap" {
+			return s.tdb.Cap(0)
+		}
+		return s.tdb.Commit(root, false)
+	}
+	s.store.writes, s.store.failAt = 0, failAt
+	ferr := flush()
+	writes = s.store.writes
+	s.store.failAt = 0
+	if ferr != nil {
+		// reported: memory still serves everything, a retry persists everything
+		readAll("after the flush reported an error", "C02/missing-node:get")
+		if h := s.t.Hash(); h != root {
+			viol("C02/root-history:after-failed-flush", fmt.Sprintf("root %x changed to %x by a failed flush", root, h))
+		}
+		if err := flush(); err != nil {
+			viol("C02/commit:retry-failed", "retry of the flush without failure: "+err.Error())
+		}
+	}
+	// restart: nothing survives but the disk content
+	s.tdb = trie.NewDatabase(s.store)
+	t2, err := trie.NewTrie(root, s.tdb)
+	if err != nil {
+		viol("C02/commit:success-reported-nodes-missing", fmt.Sprintf("flush via %s (write call %d failing, error reported: %v) then restart: committed root %x cannot be opened: %v", via, failAt, ferr != nil, root, err))
+		return
+	}
+	s.t = t2
+	readAll(fmt.Sprintf("after flush via %s (write call %d failing, error reported: %v) and restart", via, failAt, ferr != nil), "C02/commit:success-reported-nodes-missing")
+	if h := s.t.Hash(); h != root {
+		viol("C02/reopen:reopen-disk", fmt.Sprintf("root after restart %x differs from the committed root %x", h, root))
+	}
+	if want := specRoot(s.shadow); want != root {
+		viol("C02/root-spec:reopen-disk", fmt.Sprintf("root %x differs from the Yellow-Paper root %x of the content", root, want))
+	}
+	got, lerr := listing(s.t, nil)
+	if lerr != nil {
+		viol("C02/commit:success-reported-nodes-missing", "iteration after restart: "+lerr.Error())
+	} else if len(got) != len(s.shadow) {
+		viol("C02/iter-content:missing", fmt.Sprintf("iteration after restart delivers %d pairs, content has %d", len(got), len(s.shadow)))
+	}
+	if report {
+		cls := "bigflush via=" + via + " reported-error=" + fmt.Sprint(ferr != nil)
+		res.Count(cls, fmt.Sprintf("bigflush/%d/%s/%d", seed, via, failAt), true)
+	}
+	return
+}
+
 func main() {
 	a := hx.ParseArgs()
 	rng := hx.NewRng(a.Seed)
@@ -867,7 +1020,7 @@ func main() {
 	cs := hx.NewCases(a.Out, "From V.C02 Require Import Model Harness.", "list hop", "check", perShard)
 	csB := hx.NewCasesNamed(a.Out, "b", "From V.C02 Require Import HarnessB.", "list hopB", "checkB", perShard)
 	nDeep := 0
-	nBcases, bEvery := 0, 2 // quick: every second eligible history also through the cache model
+	nBcases, bEvery := 0, 3 // quick: every third eligible history also through the cache model
 	if a.Tier == "thorough" {
 		bEvery = 1
 	}
@@ -901,9 +1054,9 @@ func main() {
 					limit = 40000 // long keys (short values) are cheap for the model; only the source text is long
 				}
 			}
-			if limit > 3000*2 { // of the long-key histories every third goes through the models (the direct checks run on all)
+			if limit > 3000*2 { // of the long-key histories every fourth goes through the models (the direct checks run on all)
 				nDeep++
-				if nDeep%3 != 1 {
+				if nDeep%4 != 1 {
 					limit = 0
 				}
 			}
@@ -1073,6 +1226,27 @@ func main() {
 	recB(nil, bLen)
 	res.Note(fmt.Sprintf("direct search without model: %d more generated histories; exhaustive: all %d histories of length 2..%d over %d operations (3 keys x {1-byte, 29-byte value (leaf RLP of exactly 32 bytes), delete}, hash, commit, flush, reopen-disk, reopen-mem), each with cache limit 0 and 1 (length 5: alternately one of the two)", extra, nB, bLen, len(bOps)))
 
+	// ---- flushes of several batches with one transiently failing batch write (first / middle / last), via Commit and Cap
+	nBig := 2
+	if a.Tier == "thorough" {
+		nBig = 12
+	}
+	nFlush := 0
+	for i := 0; i < nBig; i++ {
+		seed := rng.U64()
+		for _, via := range []string{"commit", "cap"} {
+			w := bigFlush(res, seed, via, 0, true)
+			ks := map[int]bool{1: true, (w + 1) / 2: true, w: true, 2: true}
+			for k := 1; k <= w; k++ {
+				if ks[k] {
+					bigFlush(res, seed, via, k, true)
+					nFlush++
+				}
+			}
+		}
+	}
+	res.Note(fmt.Sprintf("flush-with-write-failure: %d flushes of ~400 KiB (several 100 KiB batches) through NodeDatabase.Commit / Cap with the first / second / middle / last batch write failing once; contract: error reported (then memory serves all reads, retry persists) or everything readable after restart from disk; direct checks only (values of 2-4 KiB are not sent to the model; a reported failed flush is a no-op on the abstract content)", nFlush))
+
 	cs.Close()
 	csB.Close()
 	res.Note(fmt.Sprintf("layer B (cache model, HarnessB.v): %d histories with commit / flush / reopen / cache limit re-evaluated through the model with node flags, hash placeholders and the NodeDatabase (reads, roots, listings, exact memory-cache and disk node sets)", csB.Total()))
@@ -1087,6 +1261,13 @@ func main() {
 		fmt.Printf("%6d  %s\n", res.Histogram[k], k)
 	}
 	fmt.Printf("evaluations=%d distinct_nontrivial=%d model_cases=%d violations=%d\n", res.Evaluations, res.DistinctNontrivial, res.ModelCases, len(res.Violations))
+}
+
+func minInt(a, b int) int {
+	if a < b {
+		return a
+	}
+	return b
 }
 
 func trunc(s string, n int) string {
